@@ -16,7 +16,7 @@ from .values import SymInt, SymBool, SymBytes, AtomStr, mk, make_atom, word_from
 from .maps import SymTable
 
 STUBS = [
-    'struct.unpack/pack on symbolic operands: generated from the format string passed by the code '
+    'struct.unpack/pack/unpack_from and struct.Struct methods on symbolic operands: generated from the format string passed by the code '
     '(< > = !, counts, x c b B ? h H i I l L q Q s); size check as in C',
     'ctypes.c_{u}int{8,16,32,64}(x).value: extract + sign/zero extension',
     'enum value->member lookup (EnumType.__call__): k-way fork over the distinct member values, '
@@ -27,7 +27,7 @@ STUBS = [
 ]
 
 _real = {
-    'unpack': struct.unpack, 'pack': struct.pack, 'hex': builtins.hex, 'chr': builtins.chr,
+    'unpack': struct.unpack, 'pack': struct.pack, 'unpack_from': struct.unpack_from, 'hex': builtins.hex, 'chr': builtins.chr,
     'enum_call': enum.EnumType.__call__, 'errorcode': errno.errorcode,
 }
 for _bits in (8, 16, 32, 64):
@@ -129,6 +129,46 @@ def sym_pack(fmt, *vals):
     return SymBytes.make(items)
 
 
+_RealStruct = struct.Struct
+
+
+class SymStruct(_RealStruct):
+    """struct.Struct whose methods accept symbolic operands (precompiled formats)"""
+
+    def unpack(self, buf):
+        if isinstance(buf, SymBytes):
+            return sym_unpack(self.format, buf)
+        return _RealStruct.unpack(self, buf)
+
+    def unpack_from(self, buf, offset=0):
+        if isinstance(buf, SymBytes):
+            if offset < 0:
+                offset += len(buf)
+            if offset < 0 or len(buf) - offset < self.size:
+                raise struct.error('unpack_from requires a buffer of at least %d bytes' % (self.size + max(offset, 0)))
+            part = buf[offset:offset + self.size]
+            return sym_unpack(self.format, part) if isinstance(part, SymBytes) else _RealStruct.unpack(self, part)
+        return _RealStruct.unpack_from(self, buf, offset)
+
+    def pack(self, *vals):
+        if any(_has_sym(v) for v in vals):
+            return sym_pack(self.format, *vals)
+        return _RealStruct.pack(self, *vals)
+
+    def iter_unpack(self, buf):
+        if isinstance(buf, SymBytes):
+            if self.size == 0 or len(buf) % self.size:
+                raise struct.error('iterative unpacking requires a buffer of a multiple of %d bytes' % self.size)
+            return iter([self.unpack(buf[i:i + self.size]) for i in range(0, len(buf), self.size)])
+        return _RealStruct.iter_unpack(self, buf)
+
+
+def sym_unpack_from(fmt, buf, offset=0):
+    if isinstance(buf, SymBytes):
+        return SymStruct(fmt).unpack_from(buf, offset)
+    return _real['unpack_from'](fmt, buf, offset)
+
+
 class _CIntValue:
     __slots__ = ('value',)
 
@@ -216,6 +256,8 @@ def install():
     _installed[0] = True
     struct.unpack = sym_unpack
     struct.pack = sym_pack
+    struct.unpack_from = sym_unpack_from
+    struct.Struct = SymStruct
     builtins.hex = sym_hex
     builtins.chr = sym_chr
     enum.EnumType.__call__ = sym_enum_call
@@ -232,6 +274,8 @@ def uninstall():
     _installed[0] = False
     struct.unpack = _real['unpack']
     struct.pack = _real['pack']
+    struct.unpack_from = _real['unpack_from']
+    struct.Struct = _RealStruct
     builtins.hex = _real['hex']
     builtins.chr = _real['chr']
     enum.EnumType.__call__ = _real['enum_call']
